@@ -426,19 +426,30 @@ theorem prog_call_length_noLen (S : Sys) (htab : ∀ fd ∈ S.funs.toList, fd.ok
     the token-list filters of `utils.py` used by rules, the line-level classifiers, and — the only ones reachable
     from `design_file.tokenize` — `classify.instantiated_unit.classify_entity_name` and the selected-name builders
     of `classify/utils.py` -/
-def progLenChanging : List Nat := [56, 58, 59, 60, 61, 67, 82, 83, 134, 155, 302, 385, 528, 530, 531, 532, 533, 534]
+def progLenChanging : List String :=
+  ["utils.combine_two_token_class_lists", "utils.remove_carriage_returns_from_token_list",
+   "utils.remove_comments_from_token_list", "utils.remove_consecutive_whitespace_tokens",
+   "utils.remove_whitespace_from_token_list", "utils.remove_all_trailing_whitespace", "utils.fix_blank_lines",
+   "utils.fix_trailing_whitespace", "classify.blank.classify", "classify.comment.classify",
+   "classify.instantiated_unit.classify_entity_name", "classify.preprocessor.classify",
+   "classify.utils.classify_selected_name", "classify.utils.build_use_clause_selected_name_token_list",
+   "classify.utils.build_context_reference_selected_name_token_list",
+   "classify.utils.classify_use_clause_selected_name_elements",
+   "classify.utils.classify_context_reference_selected_name_elements",
+   "classify.utils.replace_item_in_list_with_a_list_at_index"]
 
+/-- stated by name, so that adding, removing or reordering OTHER functions in the sources does not disturb it -/
 theorem progTable_noLen_failing :
-    failing Chk.noLen (Gen.Prog.progTable.map (·.2)) = progLenChanging := by decide +kernel
+    failingNames Chk.noLen Gen.Prog.progTable = progLenChanging := by decide +kernel
 
 /-- with those functions made opaque, the generated table satisfies the hypothesis of `prog_call_length_noLen` -/
 theorem progTable_masked_noLen :
-    (maskTable progLenChanging (Gen.Prog.progTable.map (·.2))).all (fun fd => fd.ok Chk.noLen) = true := by
+    (maskNames progLenChanging Gen.Prog.progTable).all (fun fd => fd.ok Chk.noLen) = true := by
   decide +kernel
 
 /-- non-vacuity: the hypothesis of `prog_call_length_noLen` holds for every system whose table is the masked
     generated table (542 translated functions) -/
-example (S : Sys) (h : S.funs = (maskTable progLenChanging (Gen.Prog.progTable.map (·.2))).toArray) :
+example (S : Sys) (h : S.funs = (maskNames progLenChanging Gen.Prog.progTable).toArray) :
     ∀ fd ∈ S.funs.toList, fd.ok Chk.noLen = true := by
   intro fd hfd
   rw [h] at hfd
